@@ -40,14 +40,9 @@ func From8Bit(v uint8) float32 {
 // This implementation uses a fast look-up table without sacrificing accuracy.
 func From16Bit(v uint16) float32 {
 	verifAt("srgb.from16.entry")
-	if encoded16ToLinearLUT != nil {
-		verifAt("srgb.from16.ret")
-		return encoded16ToLinearLUT[v]
-	}
-	return from16BitAndInitLUT(v)
-}
-
-func from16BitAndInitLUT(v uint16) float32 {
+	// sync.Once is the only synchronisation here: its fast path is a single
+	// atomic load, and reading the table variable before it would be a data race
+	// with the goroutine that publishes it.
 	initFrom16BitLUTOnce.Do(func() {
 		verifAt("srgb.from16.build")
 		from16BitLUT := lut.Build16BitToLinear(encodedToLinear)
@@ -74,14 +69,6 @@ func To8Bit(v float32) uint8 {
 // accuracy, see ConvertLinearTo16Bit.
 func To16Bit(v float32) uint16 {
 	verifAt("srgb.to16.entry")
-	if linearToEncoded16LUT != nil {
-		verifAt("srgb.to16.ret")
-		return linearToEncoded16LUT[linear.NormalisedTo16Bit(v)]
-	}
-	return to16BitAndInitLUT(v)
-}
-
-func to16BitAndInitLUT(v float32) uint16 {
 	initTo16BitLUTOnce.Do(func() {
 		verifAt("srgb.to16.build")
 		to16BitLUT := lut.BuildLinearTo16Bit(linearToEncoded)
